@@ -447,6 +447,80 @@ example : ((findCut [Ex.idt "a", Ex.lbrace, Ex.rbrace, ⟨.mediaSym, cps "@media
       Ex.idt "c", Ex.lbrace, Ex.idt "d", Ex.colon, Ex.idt "e", Ex.semi, Ex.idt "f", Ex.eof]).map
       fun c => (c.ok, c.o.shape, c.s₁.length)) = some (true, "media>media>style", 1) := by decide
 
+/-! ## T4.3 inside `@media`, at any nesting depth
+
+`mediaStmtRules O ns t stmt`: what the statement production of an `@media` block (`atrule` / `ruleset`,
+`cssmediarule.py:171-220`) appends for the collected statement `stmt` that starts with `t`. -/
+
+/-- T4.3 in a media block: `m₁` complete units; a statement `t :: g ++ [e]` of the usual shape that yields no
+rule (cases below); then ANYTHING.  The block parses exactly as without the statement. -/
+theorem media_stmt_containment (O : Oracle) (ns : List (Cps × Cps)) (m₁ m₂ : List Tok) (t : Tok)
+    (g : List Tok) (e : Tok) (stk' : List K) (hm : MediaSeq m₁)
+    (h1 : t.typ ≠ .s) (h2 : t.typ ≠ .comment) (h3 : t.typ ≠ .eof)
+    (hq : Quiet .default (startStack t) g = true) (hn : nest (startStack t) g = some stk')
+    (hp : push stk' e = some []) (he : endTok .default e = true)
+    (hdrop : mediaStmtRules O ns t (t :: g ++ [e]) = []) :
+    mediaRules O ns (m₁ ++ (t :: g ++ [e]) ++ m₂) = mediaRules O ns (m₁ ++ m₂) :=
+  mediaRules_drop_stmt O ns m₁ m₂ t g e stk' hm h1 h2 h3 hq hn hp he hdrop
+
+/-- dropped in a media block (i): a ruleset whose selector is invalid or whose structure is broken -/
+theorem dropped_in_media_invalid_ruleset (O : Oracle) (ns : List (Cps × Cps)) (t : Tok) (stmt : List Tok)
+    (ht : startsMediaRuleset t = true) (hbad : styleRule O ns stmt = none) :
+    mediaStmtRules O ns t stmt = [] := by
+  rw [mediaStmtRules_ruleset O ns t stmt ht, hbad]
+
+/-- dropped in a media block (ii): `@charset ` / `@font-face` / `@import` / `@namespace` / `@variables`
+(by the normalised at-keyword) are not allowed there: parsed, consumed, nothing inserted -/
+theorem dropped_in_media_misplaced (O : Oracle) (ns : List (Cps × Cps)) (t : Tok) (stmt : List Tok)
+    (ht : isMediaAt t = true) (hf : mediaForbidden.contains (normalize t.val) = true) :
+    mediaStmtRules O ns t stmt = [] :=
+  mediaStmtRules_forbidden O ns t stmt ht hf
+
+/-- an unknown at-rule in a media block: the only effect is the rule itself, iff it is well formed -/
+theorem unknown_atrule_in_media (O : Oracle) (ns : List (Cps × Cps)) (t : Tok) (stmt : List Tok)
+    (ht : isMediaAt t = true) (hf : mediaForbidden.contains (normalize t.val) = false)
+    (hp : normalize t.val ≠ atPage) (hm : normalize t.val ≠ atMedia) :
+    mediaStmtRules O ns t stmt = if unknownOk stmt then [Rule.unknown stmt] else [] :=
+  mediaStmtRules_unknown O ns t stmt ht hf hp hm
+
+/-- **lifting through one `@media` level (inside a media block)**: if two block contents `x`, `y` yield the
+same rules, the enclosing blocks `m₁ @media mq { x } m₂` and `m₁ @media mq { y } m₂` yield the same rules.
+With `media_stmt_containment` at the innermost level this is containment at every nesting depth. -/
+theorem containment_lifts_through_media (O : Oracle) (ns : List (Cps × Cps)) (m₁ m₂ : List Tok) (at_ : Tok)
+    (mq : List Tok) (lb : Tok) (x y : List Tok) (rb : Tok) (hm : MediaSeq m₁)
+    (hat : at_.typ = .mediaSym) (hv : normalize at_.val = atMedia) (hs : MqShape mq)
+    (hl : lb.val = vLBrace) (hlt : lb.typ = .char) (hr : rb.val = vRBrace) (hrt : rb.typ ≠ .eof)
+    (hx : Balanced x) (hxe : noEof x = true) (hy : Balanced y) (hye : noEof y = true)
+    (hxy : mediaRules O ns x = mediaRules O ns y) :
+    mediaRules O ns (m₁ ++ (at_ :: (mq ++ lb :: x) ++ [rb]) ++ m₂) =
+      mediaRules O ns (m₁ ++ (at_ :: (mq ++ lb :: y) ++ [rb]) ++ m₂) := by
+  obtain ⟨ux, rx⟩ := mediaRules_complete_media O ns at_ mq lb x rb hat hv hs hl hlt hx hxe hr hrt
+  obtain ⟨uy, ry⟩ := mediaRules_complete_media O ns at_ mq lb y rb hat hv hs hl hlt hy hye hr hrt
+  rw [List.append_assoc, mediaRules_append O ns m₁ _ hm, mediaRules_append O ns _ m₂ (MediaSeq.single ux), rx,
+    List.append_assoc, mediaRules_append O ns m₁ _ hm, mediaRules_append O ns _ m₂ (MediaSeq.single uy), ry, hxy]
+
+/-- **lifting to the sheet**: … and the sheets `s₁ @media mq { x } s₂` and `s₁ @media mq { y } s₂` parse to
+the same DOM (rules, namespaces, order level), for ANY `s₂`. -/
+theorem containment_lifts_to_sheet (O : Oracle) (M : List Cps) (s₁ s₂ : List Tok) (at_ : Tok)
+    (mq : List Tok) (lb : Tok) (x y : List Tok) (rb : Tok) (hs₁ : StmtSeq s₁)
+    (hat : at_.typ = .mediaSym) (hv : normalize at_.val = atMedia) (hs : MqShape mq)
+    (hl : lb.val = vLBrace) (hlt : lb.typ = .char) (hr : rb.val = vRBrace) (hrt : rb.typ ≠ .eof)
+    (hx : Balanced x) (hxe : noEof x = true) (hy : Balanced y) (hye : noEof y = true)
+    (hxy : mediaRules O (sheetLoop O M {} s₁).nsmap x = mediaRules O (sheetLoop O M {} s₁).nsmap y) :
+    parseSheet O M (s₁ ++ (at_ :: (mq ++ lb :: x) ++ rb :: s₂)) =
+      parseSheet O M (s₁ ++ (at_ :: (mq ++ lb :: y) ++ rb :: s₂)) := by
+  unfold parseSheet
+  rw [sheetLoop_append O M s₁ _ hs₁, sheetLoop_append O M s₁ _ hs₁,
+    sheetLoop_complete_media O M _ at_ mq lb x rb s₂ hat hv hs hl hlt hx hxe hr hrt,
+    sheetLoop_complete_media O M _ at_ mq lb y rb s₂ hat hv hs hl hlt hy hye hr hrt, hxy]
+
+-- non-vacuity: `$ x { }` inside a media block is a statement of the stated shape that starts a ruleset, and an
+-- oracle that rejects its selector drops it; `@import "a";` is not allowed there
+example : startsMediaRuleset (Ex.ch 0x24) = true
+    ∧ styleRule Ex.no [] [Ex.ch 0x24, Ex.idt "x", Ex.lbrace, Ex.rbrace] = none
+    ∧ isMediaAt (Ex.imp "@import") = true
+    ∧ mediaForbidden.contains (normalize (Ex.imp "@import").val) = true := by decide
+
 /-! ## T4.5 text level: composition with the tokenizer model of C05
 
 `sheetToks text doC` (`Lemmas/StructText.lean`): the token list `parseString(text)` hands to the sheet
